@@ -45,6 +45,8 @@ def same_value(a, b, tol=1e-12):
         return all(same_value(x, y, tol) for x, y in zip(a, b))
     if isinstance(a, bool) or isinstance(b, bool) or isinstance(a, str) or isinstance(b, str) or a is None or b is None:
         return type(a) is type(b) and a == b
+    if isinstance(a, int) and isinstance(b, int):
+        return a == b          # integers are compared exactly (no detour through floats)
     try:
         return abs(float(a) - float(b)) <= tol * max(abs(float(a)), abs(float(b)), 1e-300)
     except (TypeError, ValueError):
